@@ -61,3 +61,21 @@ Proof. repeat split. Qed.
 (* with an exogenous model the old and the repaired dispatch agree *)
 Lemma old_agrees_with_model w b f e : f_exo f = Some e -> filter_skip_old w b f = filter_skip w b f.
 Proof. destruct f as [p i s x c]; simpl; intros ->; destruct w; reflexivity. Qed.
+
+(* ---- DrawParticles(state_model, exogenous_model) as it was before
+   "fix: DrawParticles attaches the exogenous model it is constructed with": the constructor only stored the
+   model in a member nothing reads, so the state model stayed without exogenous model. ---- *)
+Definition init_of_old (a : assembly) : flags :=
+  match a with
+  | ViaStateModel have => init have
+  | ViaDrawParticlesCtor => init false
+  end.
+
+(* "'exogenous' returns true on every configuration with an exogenous model" was false of that code:
+   the command answered false, changed nothing, and propagate ignored the model *)
+Lemma old_exogenous_supplied_true_refuted :
+  exists (a : assembly) (b : bool),
+    exo_supplied a = true /\ filter_skip NExogenous b (init_of_old a) = (Ok false, init_of_old a) /\
+    prop_mode_of (init_of_old a) = MStateOnly.
+Proof. exists ViaDrawParticlesCtor, true; repeat split. Qed.
+
